@@ -321,7 +321,7 @@ def IsBBox (b : Extent) (es : List Extent) : Prop :=
   (∀ e ∈ es, b.rmin ≤ e.rmin ∧ e.rmax ≤ b.rmax ∧ b.cmin ≤ e.cmin ∧ e.cmax ≤ b.cmax) ∧
   (∃ e ∈ es, e.rmin = b.rmin) ∧ (∃ e ∈ es, e.rmax = b.rmax) ∧ (∃ e ∈ es, e.cmin = b.cmin) ∧ (∃ e ∈ es, e.cmax = b.cmax)
 
-theorem boundaryInit_eq : Extent.ofT Gen.boundaryInit = ⟨9223372036854775807, 0, 9223372036854775807, 0⟩ := rfl
+theorem boundaryInit_eq : Extent.ofT Gen.boundaryInit = ⟨9223372036854775807, -9223372036854775807, 9223372036854775807, -9223372036854775807⟩ := rfl
 
 /-- a list of options all of which are `some` is the image of a list of values -/
 theorem exists_eq_map_some {α} (l : List (Option α)) (h : ∀ o ∈ l, o.isSome = true) : ∃ out : List α, l = out.map some := by
